@@ -26,9 +26,9 @@ MANIFEST = dict(
               'correspondence run under virtual time with scripted HTTP',
     design='5/C12',
 )
-GEN = ["SseTiming"]
+GEN = []
 THEOREMS = [
-    "c12_translated", "c12_endpoint_forms", "c12_data_only_announcement", "c12_live_or_raise", "c12_enter_bounded", "c12_enter_complete",
+    "c12_endpoint_forms", "c12_data_only_announcement", "c12_live_or_raise", "c12_enter_bounded", "c12_enter_complete",
     "c12_race_exactly_once", "c12_race_count", "c12_request_leaves_idle", "c12_serial_requests",
     "c12_stream_chunk_independent", "c12_delivery_chunk_independent", "c12_stream_delivers_rendered",
     "c12_server_messages_once_in_order", "c12_cleanup_closes_all",
@@ -54,7 +54,7 @@ ASSUMPTIONS = [
     "scripted instants never coincide with the timeout / connection-cap instants in the correspondence run (either outcome satisfies the property there)",
     "server messages on the event stream carry ids different from the ids of the client's requests in flight",
     "request ids are strings (the library's own default); a synthesised error carries str(id)",
-    "the connection cap literal of _handle_sse_connection and the codes of the synthesised errors are re-read from the source on every run (Gen/SseTiming.lean); the theorems hold for any cap",
+    "no theorem depends on the connection cap or on the codes of the synthesised errors; the generator re-reads them from the source on every run (through constants and builder functions) and otherwise measures the cap on the running code and compares synthesised errors without their codes (see notes)",
     "release of real tasks/streams/clients is observed only through the mock transport (no real sockets in the quick tier)",
 ]
 
@@ -74,12 +74,15 @@ def term_kind(m):
         return "routed:" + m["result"]["tag"]
     err = m.get("error")
     if isinstance(err, dict):
-        if err.get("code") == G.LIT["timeout_code"]:
-            return "timeout"
-        if err.get("code") in G.LIT["fail_codes"]:
-            return "fail"
-        if err.get("code") == -32001:
+        if err.get("code") == -32001:  # the scripted JSON-RPC error body of an other-status reply
             return "routed:post"
+        L = G.lits()
+        if not L["codes_known"]:
+            return "synth"  # some synthesised error: the property does not name its code
+        if err.get("code") == L["timeout_code"]:
+            return "timeout"
+        if err.get("code") in L["fail_codes"]:
+            return "fail"
     return "other"
 
 
@@ -126,6 +129,8 @@ def model_shape(case, out, what):
     m["url"] = _norm_url(url) if case.get("reqs") else None
     m["srv"] = [json.loads("".join(chr(c) for c in d)) for d in out["srv"]]
     m["terms"] = out["terms"]
+    if not G.lits()["codes_known"]:
+        m["terms"] = [["synth" if k in ("timeout", "fail") else k for k in ks] for ks in m["terms"]]
     return m
 
 
@@ -137,7 +142,7 @@ def dead_cause(case):
         return "connect-error"
     if conn["k"] == "hang":
         return "connect-timeout"
-    if conn.get("at", 0) >= min(case.get("T", G.T_DEFAULT), G.CAP):
+    if conn.get("at", 0) >= min(case.get("T", G.T_DEFAULT), G.cap()):
         return "connect-timeout"
     if case.get("close") is not None:
         return "stream-ended"
@@ -370,6 +375,13 @@ class Exits(Base):
     def kind(self, case, o):
         modes = [r["mode"] for r in case.get("reqs", [])]
         return f"exit/{case['exit']['k']}/{modes[0] if modes else 'idle'}"
+
+
+def extra(ctx, tier):
+    """informational: which source literals the generator worked with"""
+    for n in G.lits()["notes"]:
+        if n not in ctx.notes:
+            ctx.notes.append("C12 literals: " + n)
 
 
 def suites():
